@@ -46,6 +46,13 @@ def plan(tier, seed):
             p = pf(gen.fragment_info(unit)[2])
             cases.append({"kind": "quantile", "family": fam, "params": list(p), "unit": unit, "nq": 80 if tier == "quick" else 600, "seed": seed * 100 + r, "blocks": 1 + (i + r) % 2})
             cases.append({"kind": "gof", "family": fam, "params": list(p), "unit": unit, "n": 250 if tier == "quick" else 3000, "seed": seed * 100 + r, "blocks": 1 + (i + r) % (2 if tier == "quick" else 3)})
+    for r in range(reps):
+        for i, (fam, pf) in enumerate(CASES):
+            if fam == "poisson":
+                continue
+            ua, ub = UNITS[(i + r) % len(UNITS)], UNITS[(i + r + 3) % len(UNITS)]
+            m = 0.5 * (gen.fragment_info(ua)[2] + gen.fragment_info(ub)[2])
+            cases.append({"kind": "copolymer", "family": fam, "params": list(pf(m)), "unit": ua, "unit2": ub, "nq": 50 if tier == "quick" else 400, "seed": seed * 100 + r, "blocks": 1})
     return [c for c in cases if not (c["kind"] == "quantile" and c["family"] == "poisson")]
 
 
@@ -106,6 +113,8 @@ def run_case(case):
 
     fam, params = case["family"], tuple(case["params"])
     rng = random.Random(case["seed"] * 1009 + len(case["unit"]))
+    if case["kind"] == "copolymer":
+        return run_copolymer(case, rng)
     ast, units = chain(fam, params, case["unit"], case["blocks"], rng)
     text = ast.to_text()
     lib = gbigsmiles.Molecule(text)
@@ -245,3 +254,64 @@ def run_case(case):
     cnt.update(trace.take_counters())
     cnt["evaluations"] = cnt["molecules"]
     return {"viol": viol[:20], "nt": nt, "cnt": dict(cnt), "sample": {"case": label, "input": text, "kind": case["kind"]}}
+
+
+def run_copolymer(case, rng):
+    """one block of two units of different mass: under a scripted quantile the block must stop after the first unit
+    whose cumulative mass (of the units actually drawn, in creation order) exceeds the reference quantile"""
+    import gbigsmiles
+
+    fam, params = case["family"], tuple(case["params"])
+    ua = gen.build_token(rng, case["unit"], [Desc("<", None, 2.0), Desc(">")], "ends")
+    ub = gen.build_token(rng, case["unit2"], [Desc("<"), Desc(">")], "ends")
+    ast = MolAst([gen.plain_token("BrC"), StochAst(Desc(">"), Desc("<"), [ua, ub], [], DistAst(fam, params, rng.randrange(6), True)), gen.plain_token("CCl")])
+    text = ast.to_text()
+    lib = gbigsmiles.Molecule(text)
+    ref = rd.make(fam, params)
+    label = f"copolymer {fam}{params} units {case['unit']} + {case['unit2']}"
+    st = lib.elements[1]
+    toks = {t.res_id: (len(t.atoms), gen.fragment_info(n)[2]) for t, n in zip(st.repeat_tokens, (case["unit"], case["unit2"]))}
+    cnt = collections.Counter()
+    viol = []
+    tol_abs = 2.0 + 1.0 / max(ref.var() ** 0.5, 1e-9) if fam == "schulz_zimm" else 0.0
+    for i in range(case["nq"]):
+        q = min(max((i + rng.random()) / case["nq"], 1e-6), 1 - 1e-4)
+        g = ScriptedRNG(script=[rng.randrange(64) for _ in range(400)], default_q=q, wrap=True)
+        obs = W.observe_generation(lib, g, budget=20000, limit_s=60)
+        cnt["molecules"] += 1
+        if obs["status"] != "ok":
+            cnt["generation_" + obs["status"]] += 1
+            continue
+        mol = obs["mol"].mol
+        seq, k, n_at = [], 0, mol.GetNumAtoms()
+        while k < n_at:
+            rid = mol.GetAtomWithIdx(k).GetPDBResidueInfo().GetResidueNumber()
+            if rid in toks:
+                seq.append(toks[rid][1])
+                k += toks[rid][0]
+            else:
+                k += 1
+        Tref = ref.ppf(q)
+        if fam == "flory_schulz" and (abs(ref.cdf(Tref) - q) < 1e-9 or abs(ref.cdf(Tref - 1) - q) < 1e-9):
+            cnt["quantile_knife_edge"] += 1
+            continue
+        lo_hi = []
+        for T in ((Tref - tol_abs, Tref + tol_abs) if fam == "schulz_zimm" else (Tref - 1e-6 * abs(Tref) - 1e-9, Tref + 1e-6 * abs(Tref) + 1e-9)):
+            acc, want = 0.0, None
+            for kk, m in enumerate(seq, 1):
+                acc += m
+                if acc > T:
+                    want = kk
+                    break
+            lo_hi.append(want)
+        if lo_hi[0] != lo_hi[1]:
+            cnt["quantile_knife_edge"] += 1
+            continue
+        cnt["quantile_decided"] += 1
+        cnt["copolymer_decided"] += 1
+        if lo_hi[0] != len(seq):
+            viol.append({"cls": "c09.quantile.copolymer-block-size-differs", "msg": f"{label}: under quantile {q!r} the block has {len(seq)} units with masses {[round(x, 1) for x in seq[:8]]}..; the declared law's quantile T = {Tref!r} is first exceeded after unit {lo_hi[0]}", "text": text, "q": q})
+    cnt.update(trace.take_counters())
+    cnt["evaluations"] = cnt["molecules"]
+    nt = ["copolymer:" + label] if cnt["copolymer_decided"] >= 30 and len(set(round(x) for x in toks.values() for x in [x[1]])) == 2 else []
+    return {"viol": viol[:20], "nt": nt, "cnt": dict(cnt), "sample": {"case": label, "input": text, "kind": "copolymer"}}
